@@ -27,6 +27,23 @@ Definition c03s_reverse (set : list c03_pair) (size l : N) : c03_out :=
        | None => C03Null
        end.
 
+Fixpoint c03s_set_first (g : Z) (v : N) (set : list c03_pair) : list c03_pair :=
+  match set with
+  | [] => []
+  | p :: r => if c03s_has g p then c03_set_loc p v :: r else p :: c03s_set_first g v r
+  end.
+
+(* set equality as operator== means it: same (global, local number, attribute, public flag) sequence *)
+Definition c03s_strip (p : c03_pair) : Z * N * N * bool := (c03_g p, c03_loc p, c03_attr p, c03_pub p).
+Definition c03s_same_entry (p q : c03_pair) : bool :=
+  (c03_g p =? c03_g q) && (c03_loc p =? c03_loc q)%N && (c03_attr p =? c03_attr q)%N && Bool.eqb (c03_pub p) (c03_pub q).
+Fixpoint c03s_all2 (l1 l2 : list c03_pair) : bool :=
+  match l1, l2 with
+  | [], [] => true
+  | p :: r1, q :: r2 => c03s_same_entry p q && c03s_all2 r1 r2
+  | _, _ => false
+  end.
+
 Definition c03_spec_step (st : c03_sstate) (op : c03_op) : c03_sstate * c03_out :=
   let '(C03SState rz set new sq) := st in
   match op with
@@ -49,6 +66,13 @@ Definition c03_spec_step (st : c03_sstate) (op : c03_op) : c03_sstate * c03_out 
   | C03Iterate => (st, C03List set)
   | C03Reverse l => (st, c03s_reverse set (N.succ (c03_max_loc set)) l)
   | C03ReverseSized sz l => (st, c03s_reverse set sz l)
+  | C03SetLocal g v =>
+      match find (c03s_has g) set with
+      | Some _ => (C03SState rz (c03s_set_first g v set) new sq, C03Ok)
+      | None => (st, C03RangeError)
+      end
+  | C03SetEq w => (st, let b := c03s_all2 set (c03_perturb w set) in C03Bits [b; negb b])
+  | C03Cmp i j g => (st, c03_cmp_out set i j g)
   end.
 
 Fixpoint c03_spec_run (st : c03_sstate) (ops : list c03_op) : c03_sstate * list c03_out :=
